@@ -25,7 +25,7 @@ class C16(Plugin):
     pid = "C16"
     entry = 16
     prop = 16
-    counts = {"quick": 1200, "thorough": 30000}
+    counts = {"quick": 1200, "thorough": 100000}
     rule = ("case = (strict converter, one of pd_compress / pd_expand / pd_standardize_prefix / _curie / _uri or file_compress / file_expand, "
             "flags strict / passthrough / ambiguous, a table of 0..8 rows x 1..4 string cells, column index, optional target column, optional "
             "header, tab or custom separator). Cells: URIs, CURIEs, unknown and malformed strings, empty cells. For files the first failing row is "
